@@ -78,17 +78,27 @@ theorem C19.rot_axis_fixed {K : Type} [CommRing K] (a : V3 K) (c s : K)
 
 /-- `rotation_matrix_from_to(u, v)` (3d, generic branch; used by `transform_system` to
 derive the default initial vectors from a given axis / position, and by the curved
-detectors) is a rotation and takes `u` to `v`, for all unit vectors that are not opposite. -/
+detectors) is a rotation (orthonormal, determinant one) and takes `u` to `v`, for all unit
+vectors that are not opposite. -/
 theorem C19.from_to_maps {K : Type} [Field K] (u v : V3 K)
     (hu : u.normSq = 1) (hv : v.normSq = 1) (hc : 1 + V3.dot u v ≠ 0) :
-    (rotFromTo u v).mulVec u = v ∧ (rotFromTo u v).transpose.mul (rotFromTo u v) = M3.one := by
+    (rotFromTo u v).mulVec u = v ∧ IsRot3 (rotFromTo u v) := by
   obtain ⟨a, b, c⟩ := u
   obtain ⟨x, y, z⟩ := v
   simp only [V3.normSq, V3.dot] at hu hv hc
-  constructor
+  refine ⟨?_, ?_, ?_⟩
   · ext <;> simp only [rotFromTo, M3.mulVec, V3.cross, V3.dot] <;> field_simp <;> grind
   · ext <;> simp only [rotFromTo, M3.mul, M3.transpose, M3.one, V3.cross, V3.dot] <;>
       field_simp <;> grind
+  · simp only [rotFromTo, V3.cross, V3.dot]
+    rw [det_rodrigues_form]
+    have lag : (b * z - c * y) * (b * z - c * y) + (c * x - a * z) * (c * x - a * z)
+        + (a * y - b * x) * (a * y - b * x)
+        = 1 - (a * x + b * y + c * z) * (a * x + b * y + c * z) := by
+      linear_combination (x * x + y * y + z * z) * hu + hv
+    rw [lag]
+    field_simp
+    ring
 
 example : (rotFromTo (⟨0, 0, 1⟩ : V3 ℚ) ⟨2 / 7, 3 / 7, 6 / 7⟩).mulVec ⟨0, 0, 1⟩ = ⟨2 / 7, 3 / 7, 6 / 7⟩ :=
   (C19.from_to_maps _ _ (by norm_num [V3.normSq, V3.dot]) (by norm_num [V3.normSq, V3.dot])
@@ -211,7 +221,8 @@ theorem C19.circular_detector {K : Type} [CommRing K] (a : V2 K) (r c s : K)
 
 /-! ## composition: reference point, rotation, detector surface -/
 
-/-- `det_point_position = det_refpoint + rotation_matrix · detector.surface` for every
+/-- DEFINITIONAL (unfolds the model; carries no information beyond the correspondence run).
+`det_point_position = det_refpoint + rotation_matrix · detector.surface` for every
 class, every rotation matrix, every detector (flat or curved) and all parameters.  (In the
 model this is the definition; that the CODE computes the same numbers is the correspondence
 run, where `det_point_position`, `det_refpoint`, `rotation_matrix` and `surface` are
@@ -225,7 +236,8 @@ theorem C19.det_point_decomp {K : Type} [CommRing K] :
       g.detPoint R turns sh p = V3.add (g.refpoint R turns sh) (R.mulVec (g.det.surface p))) :=
   ⟨fun _ _ _ => rfl, fun _ _ _ => rfl, fun _ _ _ _ => rfl, fun _ _ _ _ _ => rfl⟩
 
-/-- Divergent beams: `det_to_src(normalized=False) = src_position - det_point_position`, so
+/-- DEFINITIONAL (the model, like the code, computes `det_to_src` as this difference).
+Divergent beams: `det_to_src(normalized=False) = src_position - det_point_position`, so
 `det_point_position + det_to_src = src_position`, for fan and cone beam geometries with
 arbitrary radii, pitch, offsets, source and detector shifts, flat or curved detectors. -/
 theorem C19.src_det_consistent {K : Type} [CommRing K] :
@@ -239,26 +251,83 @@ theorem C19.src_det_consistent {K : Type} [CommRing K] :
   · intro g R turns ssh dsh p
     ext <;> simp only [Cone.detToSrc, V3.add, V3.sub] <;> ring
 
-/-- The normalised `det_to_src` (`v / ‖v‖`): for ANY scalar `k` with `k²·‖v‖² = 1` (in
-particular `k = 1/‖v‖ > 0`) the vector `k·v` has unit length; it is by construction the
-multiple `k` of `src_position - det_point_position`. -/
-theorem C19.normalised_unit {K : Type} [CommRing K] (k : K) :
-    (∀ v : V2 K, k * k * v.normSq = 1 → (V2.smul k v).normSq = 1) ∧
-    (∀ v : V3 K, k * k * v.normSq = 1 → (V3.smul k v).normSq = 1) := by
-  constructor
-  · intro v h
-    simp only [V2.normSq, V2.dot, V2.smul] at *
-    linear_combination h
-  · intro v h
-    simp only [V3.normSq, V3.dot, V3.smul] at *
-    linear_combination h
+/-- The normalised `det_to_src` as the code computes it (`v / np.linalg.norm(v)`, executed by
+the driver with an approximate square root): for any function `sqrt` that is a non-negative
+square root at the squared norm in question, the normalised vector of the fan and cone beam
+classes has unit length and is the positive multiple `1/‖v‖` of
+`src_position - det_point_position` (whenever source and detector point differ); for the
+parallel classes `det_to_src = R·(n/‖n‖)` has unit length for every orthonormal `R`. -/
+theorem C19.det_to_src_normalised {K : Type} [Field K] [LinearOrder K] [IsStrictOrderedRing K]
+    (sqrt : K → K) :
+    (∀ (g : Fan K) R ssh dsh p, (g.detToSrc R ssh dsh p).normSq ≠ 0 →
+      0 ≤ sqrt (g.detToSrc R ssh dsh p).normSq →
+      sqrt (g.detToSrc R ssh dsh p).normSq * sqrt (g.detToSrc R ssh dsh p).normSq
+        = (g.detToSrc R ssh dsh p).normSq →
+      (g.detToSrcN sqrt R ssh dsh p).normSq = 1 ∧
+      ∃ k, 0 < k ∧ g.detToSrcN sqrt R ssh dsh p = V2.smul k (g.detToSrc R ssh dsh p)) ∧
+    (∀ (g : Cone K) R turns ssh dsh p, (g.detToSrc R turns ssh dsh p).normSq ≠ 0 →
+      0 ≤ sqrt (g.detToSrc R turns ssh dsh p).normSq →
+      sqrt (g.detToSrc R turns ssh dsh p).normSq * sqrt (g.detToSrc R turns ssh dsh p).normSq
+        = (g.detToSrc R turns ssh dsh p).normSq →
+      (g.detToSrcN sqrt R turns ssh dsh p).normSq = 1 ∧
+      ∃ k, 0 < k ∧ g.detToSrcN sqrt R turns ssh dsh p = V3.smul k (g.detToSrc R turns ssh dsh p)) ∧
+    (∀ (g : Par2 K) (R : M2 K) p, R.transpose.mul R = M2.one → (g.det.normalRaw p).normSq ≠ 0 →
+      sqrt (g.det.normalRaw p).normSq * sqrt (g.det.normalRaw p).normSq
+        = (g.det.normalRaw p).normSq →
+      (g.detToSrc sqrt R p).normSq = 1) ∧
+    (∀ (g : Par3 K) (R : M3 K) p, R.transpose.mul R = M3.one → (g.det.normalRaw p).normSq ≠ 0 →
+      sqrt (g.det.normalRaw p).normSq * sqrt (g.det.normalRaw p).normSq
+        = (g.det.normalRaw p).normSq →
+      (g.detToSrc sqrt R p).normSq = 1) := by
+  have n2 : ∀ (v : V2 K), v.normSq ≠ 0 → sqrt v.normSq * sqrt v.normSq = v.normSq →
+      (V2.normalize sqrt v).normSq = 1 := by
+    intro v h0 hs
+    have hr : sqrt v.normSq ≠ 0 := by intro h; rw [h] at hs; exact h0 (by simpa using hs.symm)
+    have e : (V2.normalize sqrt v).normSq
+        = (1 / sqrt v.normSq) * (1 / sqrt v.normSq) * v.normSq := by
+      simp only [V2.normalize, V2.normSq, V2.dot, V2.smul]; ring
+    rw [e]; nth_rewrite 3 [← hs]; field_simp
+  have n3 : ∀ (v : V3 K), v.normSq ≠ 0 → sqrt v.normSq * sqrt v.normSq = v.normSq →
+      (V3.normalize sqrt v).normSq = 1 := by
+    intro v h0 hs
+    have hr : sqrt v.normSq ≠ 0 := by intro h; rw [h] at hs; exact h0 (by simpa using hs.symm)
+    have e : (V3.normalize sqrt v).normSq
+        = (1 / sqrt v.normSq) * (1 / sqrt v.normSq) * v.normSq := by
+      simp only [V3.normalize, V3.normSq, V3.dot, V3.smul]; ring
+    rw [e]; nth_rewrite 3 [← hs]; field_simp
+  have pos : ∀ r s : K, s ≠ 0 → 0 ≤ r → r * r = s → 0 < 1 / r := by
+    intro r s h0 hr hs
+    have : r ≠ 0 := by intro h; rw [h] at hs; exact h0 (by simpa using hs.symm)
+    exact one_div_pos.mpr (lt_of_le_of_ne hr (Ne.symm this))
+  refine ⟨?_, ?_, ?_, ?_⟩
+  · intro g R ssh dsh p h0 hn hs
+    exact ⟨n2 _ h0 hs, 1 / sqrt (g.detToSrc R ssh dsh p).normSq, pos _ _ h0 hn hs, rfl⟩
+  · intro g R turns ssh dsh p h0 hn hs
+    exact ⟨n3 _ h0 hs, 1 / sqrt (g.detToSrc R turns ssh dsh p).normSq, pos _ _ h0 hn hs, rfl⟩
+  · intro g R p hR h0 hs
+    rw [Par2.detToSrc, M2.normSq_mulVec R hR]; exact n2 _ h0 hs
+  · intro g R p hR h0 hs
+    rw [Par3.detToSrc, M3.normSq_mulVec R hR]; exact n3 _ h0 hs
 
-example : (V2.smul (1 / 5 : ℚ) ⟨3, 4⟩).normSq = 1 :=
-  (C19.normalised_unit (1 / 5 : ℚ)).1 ⟨3, 4⟩ (by norm_num [V2.normSq, V2.dot])
+/-- non-trivial instance: fan beam, source radius 3, detector radius 2, angle `(3/5, 4/5)`,
+detector point `u = 12`: `src - det point` has length 13, `sqrt` any function with
+`sqrt 169 = 13`. -/
+example : ∃ (g : Fan ℚ) (R : M2 ℚ) (p : P1 ℚ) (sqrt : ℚ → ℚ),
+    (g.detToSrc R V2.zero V2.zero p).normSq = 169 ∧ sqrt 169 = 13 ∧
+    (g.detToSrcN sqrt R V2.zero V2.zero p).normSq = 1 := by
+  refine ⟨⟨⟨0, 1⟩, ⟨1, 2⟩, 3, 2, .flat ⟨1, 0⟩⟩, euler2 (3 / 5) (4 / 5), ⟨12, 0, 0⟩,
+    fun _ => 13, ?_, rfl, ?_⟩
+  · simp only [Fan.detToSrc, Fan.srcPos, Fan.detPoint, Fan.refpoint, Det2.surface, euler2, V2.add,
+      V2.sub, V2.smul, V2.neg, V2.zero, V2.normSq, V2.dot, M2.mulVec]; norm_num
+  · simp only [Fan.detToSrcN, V2.normalize, Fan.detToSrc, Fan.srcPos, Fan.detPoint, Fan.refpoint,
+      Det2.surface, euler2, V2.add, V2.sub, V2.smul, V2.neg, V2.zero, V2.normSq, V2.dot,
+      M2.mulVec]; norm_num
 
 /-! ## parallel beams -/
 
-/-- Parallel beam geometries (flat detectors): the ray direction `det_to_src` does not
+/-- DEFINITIONAL for the model (the normal of a flat detector ignores its argument); that
+the code's `surface_normal` / `det_to_src` do is checked on the real objects.
+Parallel beam geometries (flat detectors): the ray direction `det_to_src` does not
 depend on the detector point. -/
 theorem C19.parallel_dir_const {K : Type} [CommRing K] :
     (∀ (pos t a : V2 K) R (p q : P1 K),
@@ -271,8 +340,9 @@ theorem C19.parallel_dir_const {K : Type} [CommRing K] :
 /-- Parallel beam geometries: for every orthonormal rotation matrix (all three
 constructions, by `rot_orthonormal_*`) the ray direction is orthogonal to the rotated
 detector axes, and it has the length of the un-rotated normal (`‖axis‖ = 1` in 2d,
-`‖a0 × a1‖` in 3d, which `surface_normal` divides by), at every detector point, also for
-curved detectors (orthogonal to the surface derivative there). -/
+`‖a0 × a1‖` in 3d, which `surface_normal` divides by), at every detector point.  (Stated
+for every model detector; the concrete parallel classes only construct flat detectors,
+for which `deriv` is the axis.) -/
 theorem C19.parallel_dir_orth_axes {K : Type} [CommRing K] :
     (∀ (g : Par2 K) (R : M2 K) (p : P1 K), R.transpose.mul R = M2.one →
       V2.dot (g.detToSrcRaw R p) (R.mulVec (g.det.deriv p)) = 0 ∧
@@ -343,12 +413,15 @@ theorem C19.fan_radii {K : Type} [CommRing K] (g : Fan K) (R : M2 K)
   ext <;> simp only [M2.mulVec] <;> ring
 
 /-- `ConeBeamGeometry` (circular and helical, arbitrary unit axis, pitch and offset) without
-shift functions: at every angle the source has distance `src_radius` and the detector
+shift functions, for every geometry the constructor accepts (`src_to_det_init` not parallel
+to the axis; otherwise the tangent cannot be normalised and the constructor raises): at
+every angle the source has distance `src_radius` and the detector
 reference point distance `det_radius` from the point
 `translation + (offset_along_axis + pitch·angle/2π)·axis` of the rotation axis, on opposite
 sides of it. -/
-theorem C19.cone_radii {K : Type} [CommRing K] (g : Cone K) (R : M3 K) (turns : K)
-    (hR : R.transpose.mul R = M3.one) (hd : g.d.normSq = 1) :
+theorem C19.cone_radii {K : Type} [CommRing K] [LE K] [DecidableLE K] (tol2 : K) (g : Cone K)
+    (R : M3 K) (turns : K) (hR : R.transpose.mul R = M3.one) (hd : g.d.normSq = 1)
+    (_hacc : Cone.ctorRejects tol2 g.d g.axis = false) :
     let centre := V3.add g.t (V3.smul (g.off + g.pitch * turns) g.axis)
     (V3.sub (g.srcPos R turns V3.zero) centre).normSq = g.rs * g.rs ∧
     (V3.sub (g.refpoint R turns V3.zero) centre).normSq = g.rd * g.rd ∧
@@ -372,7 +445,8 @@ example : ∃ g : Cone ℚ, g.d.normSq = 1 ∧ g.pitch ≠ 0 ∧ g.rs ≠ 0 :=
 
 /-! ## `frommatrix`: the geometry is the default one moved by `x ↦ Qx + b` -/
 
-/-- `frommatrix` stores `det_pos_init = M·default + b` and `translation = b`; at rotation
+/-- DEFINITIONAL (unfolds `par2FromMatrix` / `par3FromMatrix`; tie = correspondence).
+`frommatrix` stores `det_pos_init = M·default + b` and `translation = b`; at rotation
 angle 0 the reference point is that position. -/
 theorem C19.frommatrix_initial {K : Type} [CommRing K] (M : M2 K) (b : V2 K) (M3' : M3 K)
     (b3 : V3 K) :
@@ -388,27 +462,59 @@ theorem C19.frommatrix_initial {K : Type} [CommRing K] (M : M2 K) (b : V2 K) (M3
 
 /-- Rigid-motion consistency of `frommatrix` for the axis-oriented 3d classes: if the left
 block `Q` of `init_matrix` is a rotation and `b` its last column, then the geometry built
-from the transformed vectors (`axis ↦ Q·axis`, positions `↦ Q·p + b`, translation `b`)
-has, at every angle, reference points and source positions that are the images under
-`x ↦ Qx + b` of those of the untransformed geometry (translation 0), and rotation matrices
-conjugated by `Q`. -/
+from the transformed vectors (`axis ↦ Q·axis`, `src_to_det_init ↦ Q·d`, positions
+`↦ Q·p + b`, translation `b`) has rotation matrices conjugated by `Q`, and at every angle
+the reference points of `Parallel3dAxisGeometry` and the source positions and detector
+reference points of `ConeBeamGeometry` (with pitch, offset and shift functions) are the
+images under `x ↦ Qx + b` of those of the untransformed geometry (translation 0).
+(`det_point_position` / `det_to_src` of the transformed geometry are compared on the real
+code only.) -/
 theorem C19.frommatrix_consistent {K : Type} [CommRing K] (Q : M3 K)
-    (hQ : Q.transpose.mul Q = M3.one) (hdet : Q.det = 1) (b axis p0 : V3 K) (c s : K)
-    (det det' : Det3 K) :
+    (hQ : Q.transpose.mul Q = M3.one) (hdet : Q.det = 1) (b axis p0 d sh : V3 K)
+    (c s rs rd pitch off kt turns : K) (det det' : Det3 K) :
     (axisRot (Q.mulVec axis) c s).mul Q = Q.mul (axisRot axis c s) ∧
     (Par3.mk (V3.add (Q.mulVec p0) b) b det').refpoint (axisRot (Q.mulVec axis) c s) =
-      V3.add (Q.mulVec ((Par3.mk p0 V3.zero det).refpoint (axisRot axis c s))) b := by
+      V3.add (Q.mulVec ((Par3.mk p0 V3.zero det).refpoint (axisRot axis c s))) b ∧
+    (Cone.mk (Q.mulVec axis) (Q.mulVec d) b rs rd pitch off kt det').srcPos
+        (axisRot (Q.mulVec axis) c s) turns sh =
+      V3.add (Q.mulVec ((Cone.mk axis d V3.zero rs rd pitch off kt det).srcPos
+        (axisRot axis c s) turns sh)) b ∧
+    (Cone.mk (Q.mulVec axis) (Q.mulVec d) b rs rd pitch off kt det').refpoint
+        (axisRot (Q.mulVec axis) c s) turns sh =
+      V3.add (Q.mulVec ((Cone.mk axis d V3.zero rs rd pitch off kt det).refpoint
+        (axisRot axis c s) turns sh)) b := by
   have h := axisRot_conj Q hQ hdet axis c s
-  refine ⟨h, ?_⟩
-  have h2 : (axisRot (Q.mulVec axis) c s).mulVec (Q.mulVec p0) =
-      Q.mulVec ((axisRot axis c s).mulVec p0) := by
-    rw [← M3.mul_mulVec, ← M3.mul_mulVec, h]
-  have e1 : V3.sub (V3.add (Q.mulVec p0) b) b = Q.mulVec p0 := by
-    ext <;> simp only [V3.add, V3.sub] <;> ring
-  have e2 : V3.sub p0 V3.zero = p0 := by
-    ext <;> simp only [V3.sub, V3.zero] <;> ring
-  simp only [Par3.refpoint, e1, e2, h2]
-  ext <;> simp only [V3.add, V3.zero, M3.mulVec] <;> ring
+  have key : ∀ x, (axisRot (Q.mulVec axis) c s).mulVec (Q.mulVec x) =
+      Q.mulVec ((axisRot axis c s).mulVec x) := by
+    intro x; rw [← M3.mul_mulVec, ← M3.mul_mulVec, h]
+  refine ⟨h, ?_, ?_, ?_⟩
+  · have e1 : V3.sub (V3.add (Q.mulVec p0) b) b = Q.mulVec p0 := by
+      ext <;> simp only [V3.add, V3.sub] <;> ring
+    have e2 : V3.sub p0 V3.zero = p0 := by
+      ext <;> simp only [V3.sub, V3.zero] <;> ring
+    simp only [Par3.refpoint, e1, e2, key]
+    ext <;> simp only [V3.add, V3.zero, M3.mulVec] <;> ring
+  · simp only [Cone.srcPos]
+    rw [M3.mulVec_neg, cross_mulVec Q hQ hdet]
+    generalize V3.cross (V3.neg d) axis = X
+    have e : V3.add (V3.smul (-rs) (Q.mulVec d))
+        (V3.add (V3.smul sh.x (Q.mulVec (V3.neg d)))
+          (V3.smul sh.y (V3.smul kt (V3.neg (Q.mulVec X)))))
+        = Q.mulVec (V3.add (V3.smul (-rs) d)
+          (V3.add (V3.smul sh.x (V3.neg d)) (V3.smul sh.y (V3.smul kt (V3.neg X))))) := by
+      ext <;> simp only [V3.add, V3.smul, V3.neg, M3.mulVec] <;> ring
+    rw [e, key]
+    ext <;> simp only [V3.add, V3.smul, V3.zero, M3.mulVec] <;> ring
+  · simp only [Cone.refpoint]
+    rw [cross_mulVec Q hQ hdet]
+    generalize V3.cross d axis = X
+    have e : V3.add (V3.smul rd (Q.mulVec d))
+        (V3.add (V3.smul sh.x (Q.mulVec d)) (V3.smul sh.y (V3.smul kt (V3.neg (Q.mulVec X)))))
+        = Q.mulVec (V3.add (V3.smul rd d)
+          (V3.add (V3.smul sh.x d) (V3.smul sh.y (V3.smul kt (V3.neg X))))) := by
+      ext <;> simp only [V3.add, V3.smul, V3.neg, M3.mulVec] <;> ring
+    rw [e, key]
+    ext <;> simp only [V3.add, V3.smul, V3.zero, M3.mulVec] <;> ring
 
 example : ∃ Q : M3 ℚ, Q.transpose.mul Q = M3.one ∧ Q.det = 1 ∧ Q.a12 ≠ 0 :=
   ⟨axisRot ⟨2 / 7, 3 / 7, 6 / 7⟩ (3 / 5) (4 / 5),
@@ -434,27 +540,29 @@ by the slicing stream).  For the parallel classes the absolute `det_pos_init` is
 from what `__getitem__` passes to the constructor; that is the part modelled here. -/
 
 /-- `Parallel2dGeometry.__getitem__`, for every state (so also for slices of slices), every
-position and every translation: the slice has the receiver's `det_pos_init` and
-`translation` — hence the same reference points `t + R·(pos - t)` at every angle — and the
+position and every translation: the slice has the receiver's `det_pos_init`,
+`translation` and `check_bounds` — hence the same reference points `t + R·(pos - t)` at every angle — and the
 receiver is unchanged. -/
 theorem C19.getitem_angles_par2d {K : Type} [CommRing K] (g : PosState (V2 K)) :
-    (par2Getitem g).2.pos = g.pos ∧ (par2Getitem g).2.t = g.t ∧ (par2Getitem g).1 = g ∧
+    (par2Getitem g).2.pos = g.pos ∧ (par2Getitem g).2.t = g.t ∧
+    (par2Getitem g).2.cb = g.cb ∧ (par2Getitem g).1 = g ∧
     (∀ det R, (Par2.mk (par2Getitem g).2.pos (par2Getitem g).2.t det).refpoint R =
       (Par2.mk g.pos g.t det).refpoint R) := by
   have h : (par2Getitem g).2.pos = g.pos := by
     ext <;> simp only [par2Getitem, par2Ctor, V2.add, V2.sub] <;> ring
-  refine ⟨h, rfl, rfl, ?_⟩
+  refine ⟨h, rfl, rfl, rfl, ?_⟩
   intro det R
   rw [h]; rfl
 
 example : (par2Getitem (par2Ctor (⟨3 / 5, 4 / 5⟩ : V2 ℚ) ⟨2, 3⟩)).2.pos = ⟨13 / 5, 19 / 5⟩ := by
   simp only [par2Getitem, par2Ctor, V2.add, V2.sub]; norm_num
 
-/-- Sensitivity (the code before repair eee844a, finding F19a): with the OLD `__getitem__`
+/-- (not a property theorem: an `example` about the OLD model variant)
+Sensitivity (the code before repair eee844a, finding F19a): with the OLD `__getitem__`
 the slice and the receiver keep `det_pos_init` if and only if the translation is zero; e.g.
 default position `(0, 1)`, translation `(1, 0)`: the slice's reference point at angle 0 was
 `(2, 1)` instead of `(1, 1)`. -/
-theorem C19.getitem_angles_par2d_old_fails {K : Type} [CommRing K] (p t : V2 K) :
+example {K : Type} [CommRing K] (p t : V2 K) :
     ((par2GetitemOld (par2CtorOld p t)).2.pos = (par2CtorOld p t).pos ↔ t = V2.zero) ∧
     ((par2GetitemOld (par2CtorOld p t)).1.pos = (par2CtorOld p t).pos ↔ t = V2.zero) := by
   obtain ⟨px, py⟩ := p
@@ -465,21 +573,24 @@ theorem C19.getitem_angles_par2d_old_fails {K : Type} [CommRing K] (p t : V2 K) 
     ⟨fun h => ⟨by linear_combination h.1, by linear_combination h.2⟩,
     fun h => ⟨by rw [h.1]; ring, by rw [h.2]; ring⟩⟩⟩
 
-/-- `Parallel3dAxisGeometry.__getitem__`: for every way the geometry was constructed
+/-- DEFINITIONAL given the model of the constructor (`__getitem__` calls it again with the
+stored arguments, which the out-of-place translation leaves untouched).
+`Parallel3dAxisGeometry.__getitem__`: for every way the geometry was constructed
 (`det_pos_init` given or derived, any translation, also via `frommatrix`), the slice is in
 the same state as the receiver and the receiver is unchanged; so any number of successive
 slicings reproduce the state. -/
 theorem C19.getitem_angles_par3d {K : Type} [CommRing K] (dflt t : V3 K)
-    (arg : Option (V3 K)) (M : M3 K) :
-    let g := par3Ctor dflt arg t
+    (arg : Option (V3 K)) (M : M3 K) (cb : Bool) :
+    let g := par3Ctor dflt arg t cb
     ((par3Getitem dflt g).2 = g ∧ (par3Getitem dflt g).1 = g) ∧
     ((par3Getitem V3.zero (par3FromMatrix M t)).2 = par3FromMatrix M t) := by
   cases arg <;> exact ⟨⟨rfl, rfl⟩, rfl⟩
 
-/-- Sensitivity (the code before repair 3a647dc, finding F19b): with the in-place `+=` the
+/-- (not a property theorem: an `example` about the OLD model variant)
+Sensitivity (the code before repair 3a647dc, finding F19b): with the in-place `+=` the
 first slice was right iff the argument was not aliased or the translation zero, and even
 without aliasing a second slice of the same geometry was right iff the translation is zero. -/
-theorem C19.getitem_angles_par3d_old_fails {K : Type} [CommRing K] (dflt p t : V3 K)
+example {K : Type} [CommRing K] (dflt p t : V3 K)
     (aliased : Bool) :
     let g := par3CtorOld dflt (some p) aliased t
     ((par3GetitemOld dflt g).2.pos = g.pos ↔ (aliased = false ∨ t = V3.zero)) ∧
@@ -520,6 +631,40 @@ theorem C19.factory_covers_volume_parallel {K : Type} [Field K] [LinearOrder K]
     constructor <;> nlinarith [h2.1, h2.2]
   · refine ⟨x1 * s - x2 * c + 1, ?_⟩
     ext <;> simp only [] <;> grind
+
+/-- `parallel_beam_geometry` (3d, `Parallel3dAxisGeometry` about the z axis with the default
+vectors): a point `x` with `x₀² + x₁² ≤ rho²` is seen at a horizontal detector coordinate
+in `[-rho, rho]` and at the vertical coordinate `x₂` — so the detector
+`[-rho, rho] × [z_min, z_max]` the factory builds covers the volume at every angle. -/
+theorem C19.factory_covers_volume_parallel_3d {K : Type} [Field K] [LinearOrder K]
+    [IsStrictOrderedRing K] (c s rho : K) (x : V3 K) (hc : c * c + s * s = 1)
+    (hrho : 0 ≤ rho) (hx : x.x * x.x + x.y * x.y ≤ rho * rho) :
+    let g : Par3 K := ⟨⟨0, 1, 0⟩, ⟨0, 0, 0⟩, .flat ⟨1, 0, 0⟩ ⟨0, 0, 1⟩⟩
+    let R := axisRot (⟨0, 0, 1⟩ : V3 K) c s
+    (-parHalfWidth rho ≤ g.detCoord0 R x ∧ g.detCoord0 R x ≤ parHalfWidth rho) ∧
+    g.detCoord1 R x = x.z := by
+  obtain ⟨x1, x2, x3⟩ := x
+  simp only at hx
+  simp only [Par3.detCoord0, Par3.detCoord1, Par3.refpoint, Par3.detAxis0, Par3.detAxis1, Det3.a0,
+    Det3.a1, axisRot, V3.dot, V3.sub, V3.add, M3.mulVec, parHalfWidth]
+  refine ⟨?_, by ring⟩
+  have h1 : (x1 * c + x2 * s) ^ 2 ≤ rho ^ 2 := by
+    nlinarith [sq_nonneg (x1 * s - x2 * c)]
+  have h2 := abs_le_of_sq_le_sq' h1 hrho
+  constructor <;> nlinarith [h2.1, h2.2]
+
+/-- `helical_geometry`: the detector half height `h/2` is at least
+`pitch/(2π)·(n_pi·π/2 + arctan(rho/rs))` magnified by `(rs + rd)/rs`, in particular at least
+`n_pi·pitch/4·(rs + rd)/rs`: a point of the rotation axis stays inside the detector for at
+least `n_pi` half turns (the Tam–Danielsson window on the axis). -/
+theorem C19.helical_height_axis_window {K : Type} [Field K] [LinearOrder K]
+    [IsStrictOrderedRing K] (pt rho rs rd ang : K) (hpt : 0 ≤ pt) (hang : 0 ≤ ang)
+    (hrs : 0 < rs) (hrd : 0 ≤ rd) :
+    pt * ang * (rs + rd) / rs ≤ helicalHalfHeight pt rho rs rd ang := by
+  simp only [helicalHalfHeight]
+  apply div_le_div_of_nonneg_right _ hrs.le
+  have h1 : 0 ≤ pt * ang * (rs + rd) := by positivity
+  nlinarith [mul_nonneg h1 (mul_self_nonneg (rho / rs))]
 
 /-- `cone_beam_geometry` / `helical_geometry`: where a flat detector sees a point
 (`fanDetCoord`), proved against the fan-beam model: the ray from the source through the
@@ -646,11 +791,12 @@ theorem C19.vectorised_shape_examples (n m ndim : Nat) :
   · rw [C19.vectorised_shape_documented _ _ _ (by simp) (by simp)]
     simp [docShape, bcastAll, bcast, bcastRev, bcastDim_one_left, bcastDim_one_right]
 
-/-- Sensitivity (the code before repairs 5a47c74 / 5bdaf92, findings F19d / F19e): the OLD
+/-- (not a property theorem: an `example` about the OLD model variant)
+Sensitivity (the code before repairs 5a47c74 / 5bdaf92, findings F19d / F19e): the OLD
 shape logic rejected parameters with different numbers of array axes, and the curved
 two-parameter detectors rejected detector parameters whose components have different
 shapes, although the documented shape exists. -/
-theorem C19.vectorised_shape_old_fails :
+example :
     (evalShapeOld [[2, 3]] [[]] 2 false = none ∧ docShape [[2, 3]] [[]] 2 = some [2, 3, 2]) ∧
     (evalShapeOld [[]] [[3, 1]] 2 false = none ∧ docShape [[]] [[3, 1]] 2 = some [3, 1, 2]) ∧
     (evalShapeOld [[3]] [[], [3]] 3 true = none ∧ docShape [[3]] [[], [3]] 3 = some [3, 3]) := by
